@@ -260,7 +260,7 @@ func init() {
 			if tier == "thorough" {
 				n = 4
 			}
-			return fmt.Sprintf("file family {3 schemas} × {null,deflate,snappy} × every composition of <=%d records into blocks (+70-record blocks; + per codec two Big files: a 3000-record highly compressible block, and a 3/90/3-record file whose middle block exceeds 100 KiB on the wire so that the reader's buffer grows mid-block — for Big files payload bytes are flipped at every 23rd / 499th site, all other sites fully), written by the reference writer; per file: intact read under 5 readers (full, 1-byte, data+EOF, *bytes.Buffer, 16-byte *bufio.Reader) × value/pointer target; files with EMPTY blocks (count 0) first, between and after full blocks; callback failing at every record index; EVERY BIT of every block sync marker, of the header sync (when a block exists), of every snappy CRC, of every compressed payload byte (deflate, snappy) and of the magic flipped one at a time; metadata variants (schema removed, codec absent/unknown spellings, reordered, extra keys, and the metadata map written in every composition of its entries into map blocks, plain and byte-size-prefixed); a case is one damaged or intact file; non-trivial = ReadFile completed and its result was compared with the oracle", n)
+			return fmt.Sprintf("file family {3 schemas} × {null,deflate,snappy} × every composition of <=%d records into blocks (+70-record blocks; + per codec two Big files: a 3000-record highly compressible block, and a 3/90/3-record file whose middle block exceeds 100 KiB on the wire so that the reader's buffer grows mid-block — for Big files payload bytes are flipped at every 23rd / 499th site, all other sites fully), written by the reference writer; per file: intact read under 6 readers (full, 1-byte, data+EOF, *bytes.Buffer, 16-byte *bufio.Reader, every other Read returning (0, nil)) × value/pointer target; files with EMPTY blocks (count 0) first, between and after full blocks; callback failing at every record index; EVERY BIT of every block sync marker, of the header sync (when a block exists), of every snappy CRC, of every compressed payload byte (deflate, snappy) and of the magic flipped one at a time; metadata variants (schema removed, codec absent/unknown spellings, reordered, extra keys, and the metadata map written in every composition of its entries into map blocks, plain and byte-size-prefixed); a case is one damaged or intact file; non-trivial = ReadFile completed and its result was compared with the oracle", n)
 		},
 		Assumptions: []string{
 			"for a flipped payload bit the claim is made only when the reference decompressor (stdlib flate / golang/snappy + CRC) rejects the damaged payload; flips it accepts are counted, not judged",
